@@ -94,7 +94,18 @@ def run(ctx):
     res.check(len(wn) == 1 and wn[0][1]["rv"]["k"] == "use" and expr(no, wn[0][1]["rv"]["op"]) == "saturating_add(cursor.cursor,1)", "R14.1", "next-advances-by-one", no.where(),
               "next_os advances the cursor by exactly one", "next_os advances the cursor by %s" % [expr(no, s_["rv"]["op"]) if s_["rv"]["k"] == "use" else s_["rv"]["k"] for i, s_ in wn])
     ie_ = fx.body("clap_lex::RawArgs::is_end")
-    res.check(bool(ie_.calls_to(r"RawArgs::peek_os$")) and bool(ie_.calls_to(r"Option::is_none$")), "R14.1", "is_end", ie_.where(), "is_end = peek_os().is_none()", "is_end no longer is `nothing at the cursor`")
+    d_ = ie_.def_sites(0)
+    forms = []
+    for d in d_:
+        rv = d[3]
+        if isinstance(rv, dict) and rv["k"] == "binop":
+            forms.append("%s(%s,%s)" % (rv["op"], expr(ie_, rv["a"]), expr(ie_, rv["b"])))
+        elif isinstance(rv, dict):
+            forms.append(rv["k"])
+        else:
+            forms.append("%s(%s)" % (rv.callee_q.rsplit("::", 1)[1], expr(ie_, rv.args[0])))
+    OKF = {"is_none(peek_os(self,cursor))", "is_none(get(self.items,cursor.cursor))", "Ge(cursor.cursor,len(self.items))", "Le(len(self.items),cursor.cursor)"}
+    res.check(len(forms) == 1 and forms[0] in OKF, "R14.1", "is_end", ie_.where(), "is_end = nothing at the cursor (%s)" % forms, "is_end is computed as %s: with the cursor allowed past the end (next_os advances unconditionally) this is not `cursor >= len`" % forms)
 
     # ---- R14.2 byte helpers are byte helpers
     for b in fx.bodies(r"^<std::ffi::os_str::OsStr as clap_lex::ext::OsStrExt>::", crate="clap_lex"):
